@@ -86,12 +86,8 @@ class TransformDatetimeWithTimezone(LibcstResultTransformer, NameResolutionMixin
             # it's from import so timezone should also be from import
             self.add_needed_import("datetime", "timezone")
             kwarg_val = "timezone.utc"
-            module = (
-                "datetime"
-                if (curr_module := original_node.func.value.value)
-                in (self._module_name, "date")
-                else curr_module
-            )
+            # the name the class is bound to in this module, whatever it is called
+            module = original_node.func.value.value
 
         return maybe_name, kwarg_val, module
 
